@@ -16,8 +16,12 @@ func runC10Observer(sc *SessScript) *sim.Outcome {
 	s := newSess(sc, o)
 	w := s.W
 	if !s.Handshake(sc.Cfg.Starter) {
-		o.Discard = true
-		return o
+		// every message of the handshake was emitted by an honest party; if the observer finds them all as prescribed,
+		// one of them was refused although it is what the specification prescribes
+		if is := s.ObsIssues(); len(is) > 0 {
+			return o.Fail("C10/"+sigOfIssue(is[0]), "%s", is[0])
+		}
+		return o.Fail("C10/conformant-message-refused", "a key exchange between two conversations over a reliable channel did not complete although every message emitted is what the specification prescribes (short D-H public values armed: A %d, B %d)", sc.Cfg.SkA, sc.Cfg.SkB)
 	}
 	rotated := false
 	for _, op := range sc.Ops {
